@@ -22,9 +22,15 @@ theories/Bitmap/BAProofs.vos theories/Bitmap/BAProofs.vok theories/Bitmap/BAProo
 theories/Bitmap/GenProofs.vo theories/Bitmap/GenProofs.glob theories/Bitmap/GenProofs.v.beautified theories/Bitmap/GenProofs.required_vo: theories/Bitmap/GenProofs.v theories/Bitmap/BmGen.vo theories/Bitmap/FSetLemmas.vo theories/Bitmap/BackendOk.vo
 theories/Bitmap/GenProofs.vio: theories/Bitmap/GenProofs.v theories/Bitmap/BmGen.vio theories/Bitmap/FSetLemmas.vio theories/Bitmap/BackendOk.vio
 theories/Bitmap/GenProofs.vos theories/Bitmap/GenProofs.vok theories/Bitmap/GenProofs.required_vos: theories/Bitmap/GenProofs.v theories/Bitmap/BmGen.vos theories/Bitmap/FSetLemmas.vos theories/Bitmap/BackendOk.vos
-theories/Properties_C16.vo theories/Properties_C16.glob theories/Properties_C16.v.beautified theories/Properties_C16.required_vo: theories/Properties_C16.v theories/Bitmap/BmGen.vo theories/Bitmap/RBModel.vo theories/Bitmap/BAModel.vo theories/Bitmap/FSetLemmas.vo theories/Bitmap/BackendOk.vo theories/Bitmap/RBProofs.vo theories/Bitmap/BAProofs.vo theories/Bitmap/GenProofs.vo
-theories/Properties_C16.vio: theories/Properties_C16.v theories/Bitmap/BmGen.vio theories/Bitmap/RBModel.vio theories/Bitmap/BAModel.vio theories/Bitmap/FSetLemmas.vio theories/Bitmap/BackendOk.vio theories/Bitmap/RBProofs.vio theories/Bitmap/BAProofs.vio theories/Bitmap/GenProofs.vio
-theories/Properties_C16.vos theories/Properties_C16.vok theories/Properties_C16.required_vos: theories/Properties_C16.v theories/Bitmap/BmGen.vos theories/Bitmap/RBModel.vos theories/Bitmap/BAModel.vos theories/Bitmap/FSetLemmas.vos theories/Bitmap/BackendOk.vos theories/Bitmap/RBProofs.vos theories/Bitmap/BAProofs.vos theories/Bitmap/GenProofs.vos
+theories/Bitmap/BmResize.vo theories/Bitmap/BmResize.glob theories/Bitmap/BmResize.v.beautified theories/Bitmap/BmResize.required_vo: theories/Bitmap/BmResize.v theories/Bitmap/BmGen.vo
+theories/Bitmap/BmResize.vio: theories/Bitmap/BmResize.v theories/Bitmap/BmGen.vio
+theories/Bitmap/BmResize.vos theories/Bitmap/BmResize.vok theories/Bitmap/BmResize.required_vos: theories/Bitmap/BmResize.v theories/Bitmap/BmGen.vos
+theories/Bitmap/BmResizeProofs.vo theories/Bitmap/BmResizeProofs.glob theories/Bitmap/BmResizeProofs.v.beautified theories/Bitmap/BmResizeProofs.required_vo: theories/Bitmap/BmResizeProofs.v theories/Bitmap/BmGen.vo theories/Bitmap/FSetLemmas.vo theories/Bitmap/BackendOk.vo theories/Bitmap/GenProofs.vo theories/Bitmap/BmResize.vo
+theories/Bitmap/BmResizeProofs.vio: theories/Bitmap/BmResizeProofs.v theories/Bitmap/BmGen.vio theories/Bitmap/FSetLemmas.vio theories/Bitmap/BackendOk.vio theories/Bitmap/GenProofs.vio theories/Bitmap/BmResize.vio
+theories/Bitmap/BmResizeProofs.vos theories/Bitmap/BmResizeProofs.vok theories/Bitmap/BmResizeProofs.required_vos: theories/Bitmap/BmResizeProofs.v theories/Bitmap/BmGen.vos theories/Bitmap/FSetLemmas.vos theories/Bitmap/BackendOk.vos theories/Bitmap/GenProofs.vos theories/Bitmap/BmResize.vos
+theories/Properties_C16.vo theories/Properties_C16.glob theories/Properties_C16.v.beautified theories/Properties_C16.required_vo: theories/Properties_C16.v theories/Bitmap/BmGen.vo theories/Bitmap/RBModel.vo theories/Bitmap/BAModel.vo theories/Bitmap/FSetLemmas.vo theories/Bitmap/BackendOk.vo theories/Bitmap/RBProofs.vo theories/Bitmap/BAProofs.vo theories/Bitmap/GenProofs.vo theories/Bitmap/BmResize.vo theories/Bitmap/BmResizeProofs.vo
+theories/Properties_C16.vio: theories/Properties_C16.v theories/Bitmap/BmGen.vio theories/Bitmap/RBModel.vio theories/Bitmap/BAModel.vio theories/Bitmap/FSetLemmas.vio theories/Bitmap/BackendOk.vio theories/Bitmap/RBProofs.vio theories/Bitmap/BAProofs.vio theories/Bitmap/GenProofs.vio theories/Bitmap/BmResize.vio theories/Bitmap/BmResizeProofs.vio
+theories/Properties_C16.vos theories/Properties_C16.vok theories/Properties_C16.required_vos: theories/Properties_C16.v theories/Bitmap/BmGen.vos theories/Bitmap/RBModel.vos theories/Bitmap/BAModel.vos theories/Bitmap/FSetLemmas.vos theories/Bitmap/BackendOk.vos theories/Bitmap/RBProofs.vos theories/Bitmap/BAProofs.vos theories/Bitmap/GenProofs.vos theories/Bitmap/BmResize.vos theories/Bitmap/BmResizeProofs.vos
 theories/IoCache/IoModel.vo theories/IoCache/IoModel.glob theories/IoCache/IoModel.v.beautified theories/IoCache/IoModel.required_vo: theories/IoCache/IoModel.v 
 theories/IoCache/IoModel.vio: theories/IoCache/IoModel.v 
 theories/IoCache/IoModel.vos theories/IoCache/IoModel.vok theories/IoCache/IoModel.required_vos: theories/IoCache/IoModel.v 
